@@ -96,6 +96,17 @@ def corpus(tier, seed):
         big = [c for c in combos if len(c) == 4]
         rnd.shuffle(big)
         combos = small + big[:3000]
+    # every literal together with every pair of patterns that both capture its text (the winner rule with
+    # more than one competitor), independent of the sample above
+    seen = set(combos)
+    for li, l in enumerate(lits):
+        word = [ord(ch) for ch in l['chars']]
+        hit = [len(lits) + pi for pi, p in enumerate(pats) if rr.matches(p['tree'], word)]
+        for a, b in itertools.combinations(hit, 2):
+            c = (li, a, b)
+            if c not in seen:
+                seen.add(c)
+                combos.append(c)
     for c in combos:
         defs = [alld[i] for i in c]
         named = [rnd.random() < 0.4 for _ in defs]
